@@ -189,6 +189,52 @@ def rand_align_doc(rng):
     return d
 
 
+def rand_fill_doc(rng):
+    def txt(lo=1, hi=4):
+        return ('t', 'x' * rng.randint(lo, hi))
+    sep = lambda: rng.choice([('line',), ('softline',), ('line',)])
+
+    # most documents force their breaks with always_break only (a bare hardline inside a group is known finding K1, and a document
+    # holding one is explained by it)
+    ab_only = rng.random() < 0.7
+
+    def forced():
+        inner = ('cat', [txt(1, 2), sep(), txt(1, 2)])
+        return ('ab', inner) if ab_only or rng.random() < 0.7 else ('cat', [txt(1, 2), ('hl',), txt(1, 2)])
+
+    def item():
+        r = rng.random()
+        if r < 0.35:
+            return txt()
+        body = ('cat', [sep(), forced()]) if rng.random() < 0.6 else forced()
+        g = ('group', body)
+        if r < 0.55:
+            return g
+        if r < 0.7:
+            return ('nest', rng.choice([1, 2, 4]), g)
+        if r < 0.8:
+            return ('ann', ('tok', 5), g)
+        if r < 0.9:
+            return ('group', ('cat', [txt(1, 2), sep(), txt(1, 3)]))
+        return ('ab', txt())
+    n = rng.choice([1, 2, 2, 3, 4, 5])
+    items = []
+    for i in range(n):
+        items.append(item())
+        if i < n - 1:
+            # every other item of a fill is a separator: usually a line, sometimes a group around a line and forced-break content
+            items.append(sep() if rng.random() < 0.65 else item())
+    if rng.random() < 0.25:
+        items = items[:2]            # a content item and a separator, nothing after it
+    d = ('fill', items)
+    r = rng.random()
+    if r < 0.3:
+        d = ('group', d)
+    elif r < 0.5:
+        d = ('cat', [txt(0, 3), d, txt(0, 2)])
+    return d
+
+
 def engine_section(tier, seed, classic=False):
     """Returns (stats, mismatches)."""
     rng = random.Random(seed * 7919 + (1 if classic else 0))
@@ -229,6 +275,16 @@ def engine_section(tier, seed, classic=False):
     stats['evaluations'] += ev4
     stats['distinct_nontrivial'] += nt4
     mism.extend(mm4)
+    # fill items that are groups (or nests / annotations of groups) around always_break content: the machine decides each fill item
+    # by measuring it, and a group holding a forced break must come out broken wherever it sits
+    if not classic:
+        fdocs = [rand_fill_doc(rng) for _ in range(300 if tier == 'quick' else 4000)]
+        cff, _dr = make_configs([3, 6, 10, 20, 40], [Fraction(1, 1), Fraction(1, 2)])
+        ev5, nt5, mm5, nd5 = run_chunks(fdocs, cff, chunk=25)
+        stats['fill_docs_with_forced_breaks'] = nd5
+        stats['evaluations'] += ev5
+        stats['distinct_nontrivial'] += nt5
+        mism[0:0] = mm5          # in front: the failing-input search looks at the first disagreements
     fr_r = FRACS + [Fraction(1, 3), Fraction(3, 4), Fraction(1, 10)]
     cfr, dr3 = make_configs([1, 2, 3, 5, 8, 10, 13, 20, 30, 40, 79], fr_r)
     ev3, nt3, mm3, nd3 = run_chunks(rdocs, cfr, chunk=50)
